@@ -52,6 +52,13 @@ def bases(engine, rng, n):
                steps=[{"do": "Emit", "src": "s1"}, {"do": "Emit", "src": "s2"}, {"do": "Confirm", "dst": "d1"},
                       {"do": "Confirm", "dst": "d1", "n": 2}, {"do": "Emit", "src": "s1"},
                       {"do": "Confirm", "dst": "d1"}]))
+    # a batching destination: the last, partially filled batch is confirmed only when Stop(lastPosition) flushes it
+    out.append(dpgen.scenario(engine + "-g-batching", engine, [S("s1", 3, [1, 1, 1])], [D("d1", gated=False, batch=2)],
+               steps=[{"do": "Emit", "src": "s1"}, {"do": "Settle"}, {"do": "Emit", "src": "s1"}, {"do": "Settle"},
+                      {"do": "Emit", "src": "s1"}, {"do": "Settle"}]))
+    out.append(dpgen.scenario(engine + "-g-batching2", engine, [S("s1", 4, [2, 2])],
+               [D("d1", gated=False, batch=3), D("d2", gated=False)],
+               steps=[{"do": "Emit", "src": "s1"}, {"do": "Settle"}, {"do": "Emit", "src": "s1"}, {"do": "Settle"}]))
     if engine == "v1":
         out.append(dpgen.scenario(engine + "-g-par", engine, [S("s1", 4, [1, 1, 1, 1])], [D("d1")],
                    procs=[P("p1", "pipeline", 3, {})],
@@ -70,6 +77,10 @@ def random_healthy(rng, engine, n):
     for i in range(n):
         sc = dpgen.random_scenario(rng, engine, i, healthy=True)
         sc["id"] = "%s-gr-%05d" % (engine, i)
+        if rng.random() < 0.3:
+            for d in sc["dests"]:
+                if not d["gated"] and rng.random() < 0.7:
+                    d["batch"] = rng.choice([2, 3, 5])
         if rng.random() < 0.4:
             sc["persister"] = "lazy"
             sc["steps"].insert(rng.randint(1, len(sc["steps"])), {"do": "Flush"})
@@ -116,7 +127,7 @@ def run(tier, seed):
     chk.validate()
     return chk.finish(nontrivial,
                       "healthy pipelines only; a graceful stop (StopAndWait, or Stop + WaitPipeline) inserted at "
-                      "every step index of 6 small base scripts per engine, plus seeded random healthy scenarios; "
+                      "every step index of 8 small base scripts per engine (incl. batching destinations that confirm the last partial batch only on Stop), plus seeded random healthy scenarios; "
                       "non-trivial = a stop was issued; distinct = distinct (engine, persister, topology, records "
                       "emitted/acked/in flight at the stop instant, acks after the stop, stop call)",
                       ["fake plugins honour the connector SDK contract (Stop returns the last position handed over "
